@@ -37,8 +37,8 @@ CLAIMED = {
    ref='DESIGN.md section 5, C04'),
  'C05': dict(
    technique='static analysis: abstract interpretation (intervals x low-bit congruence x affine forms) of CodeGen::resolveLabels / the CodeGen constructor / emitProgramBin on abstract directive sequences built by interpreting the directive constructors; a must-record CFG rule for the fixed-point exit; AST rule for the relative/absolute table',
-   text='Clauses, each a necessary condition: (R1) the layout loop cannot be left while an operand may be stale (CFG must-record rule) plus a two-reference template over all gap classes; (R2) every InstrLabel construction classifies its mnemonic as the ISA does; (R3) absolute references yield the word address when aligned and are rejected otherwise, for all residues; (R4) a label before DATA names the aligned word; (R5) layout offsets == bytes emitted == emitter\'s running offset == recorded symbol offsets for every directive kind/sequence x start residue; (R6) header length word; (R7) relative references are self-consistent and survive their encoding for every forward/backward gap class up to 2^22. Offsets are symbolic (start + constant), so each verdict covers all program sizes.',
-   note='NOT decided: termination of the layout iteration for every program (the repaired code grows encodings monotonically, which bounds the passes, but the check does not prove it) and programs with more than two mutually dependent references beyond the CFG rule. Trusted: clang AST, interpreter, pc-relative/absolute tables of the property.',
+   text='Clauses, each a necessary condition: (R1) the layout loop cannot be left while an operand may be stale (CFG must-record rule) plus a two-reference template over all gap classes; (R2) every InstrLabel construction classifies its mnemonic as the ISA does; (R3) absolute references yield the word address when aligned and are rejected otherwise, for all residues; (R4) a label before DATA names the aligned word; (R5) layout offsets == bytes emitted == emitter\'s running offset == recorded symbol offsets for every directive kind/sequence x start residue; (R6) header length word; (R7) relative references are self-consistent and survive their encoding for every forward/backward gap class up to 2^22; (R8) termination measure of the layout iteration: the continue-flag is set only from the size setter, the setter never shrinks and reports true only on growth, sizes are bounded by 8 bytes, so at most 7 x references + 1 passes. Offsets are symbolic (start + constant), so each verdict covers all program sizes.',
+   note='NOT decided: minimality of the layout; programs with more than two mutually dependent references are covered by the CFG rule R1 and the measure R8, not by templates. An unrecognised loop idiom is reported as undecided (exit 2), not as a violation. Trusted: clang AST, interpreter, pc-relative/absolute tables of the property.',
    ref='DESIGN.md section 5, C05'),
  'C15': dict(
    technique='static analysis: symbolic step summaries of Processor::run with tracing on (trace() interpreted, format-chain arguments compared as canonical terms per instruction byte); writer/reader I/O-sequence agreement over the AST; import of the layout==emission abstract interpretation for symbol offsets; lookupSymbol interpreted over the complete ordering domain of small tables',
@@ -67,8 +67,8 @@ CLAIMED = {
    ref='DESIGN.md section 5, C06'),
  'C01': dict(
    technique='static analysis: abstract interpretation (intervals, affine frame offsets, abstract AST objects built by the real constructors) of ExprCodeGen/StmtCodeGen/CodeBuffer/OptimiseExpr/ConstProp over all operator x operand-kind shapes with sub-expression code as an opaque step; template analysis of the generated directive sequences; AST rules',
-   text='Structural necessary conditions only (equivalence of source and binary for every program is not decidable statically here): R1 register-target discipline; R2 the tree survives code generation (no moved-from child); R3 label classification; R4 generated labels cannot be identifiers; R5 frame-offset balance of every call/operator template; R6 string packing incl. the empty string; R7 operator coverage; R8 spill-slot discipline (values read back after a sub-expression sit in reserved frame slots; outgoing actuals are protected from later temporaries, proved with symbolic frame-size lower bounds); R9/R10 the expression optimiser and the folder preserve the X meaning of every operator/operand-class shape on the ordering domain. Breaking any of them miscompiles or crashes on some program.',
-   note='NOT decided: control-flow templates (branch polarity of if/while/and/or), calling-convention slot numbers beyond R5/R8, peephole soundness, recursion; hence a pass is not a proof of C01. Trusted: clang AST; interpreter; X operator table.',
+   text='Structural necessary conditions only (equivalence of source and binary for every program is not decidable statically here): R1 register-target discipline; R2 the tree survives code generation (no moved-from child); R3 label classification; R4 generated labels cannot be identifiers; R5 frame-offset balance of every call/operator template; R6 string packing incl. the empty string; R7 operator coverage; R8 spill-slot discipline (values read back after a sub-expression sit in reserved frame slots; outgoing actuals are protected from later temporaries, proved with symbolic frame-size lower bounds); R9/R10 the expression optimiser and the folder preserve the X meaning of every operator/operand-class shape on the ordering domain; R11 executing the generated instruction template of every operator x operand-kind pair (sub-expression code an opaque step) leaves the X meaning in areg for every ordering/zero-test combination; R12 the if/while templates execute exactly the X control flow (branch polarity, loop back-edge) for all skip/non-skip shapes. Breaking any of them miscompiles or crashes on some program.',
+   note='NOT decided: composition of the templates into whole programs (an induction over program structure that the check does not carry out), calling-convention slot numbers beyond R5/R8, peephole soundness on arbitrary directive streams, run-time recursion depth; hence a pass is not a proof of C01. Trusted: clang AST; interpreter; X operator table.',
    ref='DESIGN.md section 5, C01'),
  'C07': dict(
    technique='static analysis: abstract interpretation of ConstProp / OptimiseExpr / genConst on abstract AST objects over the complete ordering domain of operand values and over operand classes (variable, zero, constant, operator sub-tree); interval analysis for overflow; CFG guard rule for val propagation',
@@ -81,14 +81,14 @@ CLAIMED = {
    note='NOT decided: per-access bounds of arbitrary executions, recursion depth vs. stack budget, array subscripts, unchecked array lengths. Trusted: clang AST; interpreter; ISA semantics of 12 instructions in the affine executor.',
    ref='DESIGN.md section 5, C08'),
  'C09': dict(
-   technique='static analysis: AST/CFG rules over xcmp.cpp (thrown types, try containment, use-after-move dataflow, never-null lookup, checked downcasts with a frozen guard table) plus abstract interpretation of the lexer on the input class c.EOF* and imports of the moved-from-child, overflow and val-guard rules',
-   text='Clauses (necessary conditions; "all byte strings" is a dynamic quantifier): R1 every throw derives from std::exception and the drivers run the compiler inside catching try blocks; R2 no read of the uninitialised val value; R3 no null child / moved-from dereference during code generation for all operator x operand shapes; R4 no signed overflow in folding; R5 no use of a unique_ptr variable after std::move; R6 SymbolTable::lookup never returns null; R7 every dereferenced dynamic_cast is null-tested or guard-recorded; R8 the lexer reaches END_OF_FILE or a diagnostic on c.EOF* for all 256 bytes.',
-   note='NOT decided: termination/recursion depth on arbitrary inputs, out-of-bounds accesses in general (one seeded memcpy over-read is missed, DESIGN.md), ctype on plain char. Trusted: clang AST; DOWNCAST_GUARDS table.',
+   technique='static analysis: AST/CFG rules over xcmp.cpp (thrown types, try containment, use-after-move dataflow, never-null lookup, checked downcasts with a frozen guard table), call-graph SCC analysis with depth-guard recognition, plus abstract interpretation of the lexer on the input class c.EOF* and imports of the moved-from-child, overflow and val-guard rules',
+   text='Clauses (necessary conditions; "all byte strings" is a dynamic quantifier): R1 every throw derives from std::exception and the drivers run the compiler inside catching try blocks; R2 no read of the uninitialised val value; R3 no null child / moved-from dereference during code generation for all operator x operand shapes; R4 no signed overflow in folding; R5 no use of a unique_ptr variable after std::move; R6 SymbolTable::lookup never returns null; R7 every dereferenced dynamic_cast is null-tested or guard-recorded; R8 the lexer reaches END_OF_FILE or a diagnostic on c.EOF* for all 256 bytes (thorough: byte pairs/triples); R9 string packing never reads past the literal; R10 every recursive cycle of the resolved call graph reachable from main() (virtual calls fanned out to all overriders) passes through a depth guard (counter checked against a constant <= 2000, throwing, before recursing) or descends one syntax-tree level per call with the tree-building parser so guarded - stack exhaustion on nested input is otherwise a crash on a 36 kB source.',
+   note='NOT decided: out-of-bounds accesses in general, ctype on plain char, whether the accepted depth constant fits the stack of a given host (calibrated by measurement: crashes began at 9024 levels at -O0 / 8 MB). Trusted: clang AST; DOWNCAST_GUARDS table; control fixture fixtures/recursion.cpp re-analysed on every run.',
    ref='DESIGN.md section 5, C09'),
  'C10': dict(
-   technique='static analysis: AST rules (thrown types, try containment, downcast guard table) + abstract interpretation of resolveLabels/CodeGen on degenerate and undefined-label programs, of the lexer on c.EOF* for all bytes, and imports of the UB-free sizing (C04-R1) and unaligned-reference (C05-R3) rules',
-   text='Clauses: R1 exception discipline and containment in hexasm.cpp; R2 undefined labels are rejected with hexutil::Error for relative and absolute references without null dereference; R3 empty and label-only programs are laid out without UB; R4 the lexer terminates at end of input after any byte; R5 checked downcasts; R8 no UB while sizing/encoding immediates over the whole int range; R9 unaligned absolute references are rejected.',
-   note='NOT decided: termination of the layout iteration on every program (monotone growth is argued in the fix, not proved by the check), ctype on plain char, arbitrary byte strings beyond the listed input classes.',
+   technique='static analysis: AST rules (thrown types, try containment, downcast guard table), call-graph SCC analysis + abstract interpretation of resolveLabels/CodeGen on degenerate and undefined-label programs, of the lexer on c.EOF* for all bytes, and imports of the UB-free sizing (C04-R1) and unaligned-reference (C05-R3) rules',
+   text='Clauses: R1 exception discipline and containment in hexasm.cpp; R2 undefined labels are rejected with hexutil::Error for relative and absolute references without null dereference; R3 empty and label-only programs are laid out without UB; R4 the lexer terminates at end of input after any byte; R5 checked downcasts; R8 no UB while sizing/encoding immediates over the whole int range; R9 unaligned absolute references are rejected; R10 termination measure of the layout iteration (import of C05-R8); R11 no unbounded recursion reachable from main() (call-graph SCC rule, as C09-R10).',
+   note='NOT decided: ctype on plain char, arbitrary byte strings beyond the listed input classes (the clauses are necessary conditions).',
    ref='DESIGN.md section 5, C10'),
 }
 
